@@ -274,6 +274,7 @@ class Contract:
                 raise PyRaise(exc, f'contract of {self.qualname}')
         if self.result is None:
             return None
+        ctx.underdetermined = True
         res = self.result.make(f'res@{site}', ctx) if isinstance(self.result, Spec) else self.result(f'res@{site}', ctx, **env)
         if self.ensures is not None:
             for f in _as_dict(self.call(self.ensures, view, tys, raw(res))).values():
